@@ -57,7 +57,10 @@ Inductive err :=
 | EEofMid                                          (* OSError: got end of file during message *)
 | EIo                                              (* OSError raised by the OS (oracle), not EINTR *)
 | EEof                                             (* EOFError *)
-| ETooShort (msg : list Z).                        (* BufferTooShort(whole message) *)
+| ETooShort (msg : list Z)                         (* BufferTooShort(whole message) *)
+| ENoLen                                           (* TypeError: len() of a 0-dimensional view *)
+| ESpin.                                           (* no exception: the _send loop never ends
+                                                      (every later write() is of 0 bytes) *)
 
 (* numeric code: hundreds digit = exception class, rest = which raise *)
 Definition err_code (e : err) : Z :=
@@ -69,8 +72,11 @@ Definition err_code (e : err) : Z :=
   | EEof => 301
   | EStruct => 401
   | ETooShort _ => 501
+  | ENoLen => 601
+  | ESpin => 701
   end.
-Definition kind_of_code (c : Z) : Z := c / 100.   (* 0 ok 1 OSError 2 ValueError 3 EOFError 4 struct.error 5 BufferTooShort *)
+Definition kind_of_code (c : Z) : Z := c / 100.   (* 0 ok 1 OSError 2 ValueError 3 EOFError 4 struct.error 5 BufferTooShort
+                                                     6 TypeError 7 never returns *)
 
 (* ---- connection flags ---- *)
 Record conn := mkc { closed : bool; readable : bool; writable : bool }.
@@ -140,6 +146,91 @@ Definition send_bytes (c : conn) (o : list wresp) (buf : list Z) (off : Z) (size
   | inl e => (o, [], [], Some e)
   | inr (lo, hi) => send_bytes_raw o (slice lo hi buf)
   end.
+
+(* ------------------------------------------------------------------ *)
+(* Buffers as the buffer protocol exposes them.  `send_bytes` accepts any
+   C-contiguous buffer: its bytes, the width of one item and its shape.  For a
+   bytes / bytearray / 1-D memoryview object the shape is [number of items].
+   What the code computes with is NOT the byte count: `len(m)` is the FIRST
+   dimension, `m[a:b]` selects rows a..b of the first dimension, and only
+   buffers with items wider than a byte are first re-viewed as flat bytes
+   (`if m.itemsize > 1: m = memoryview(bytes(m))`). *)
+Record pybuf := mkbuf { pb_bytes : list Z; pb_item : Z; pb_shape : list Z }.
+Definition prod (l : list Z) : Z := fold_right Z.mul 1 l.
+(* a 1-D buffer of bytes *)
+Definition flat (l : list Z) : pybuf := mkbuf l 1 [len l].
+
+(* the view send_bytes slices: (len(m), bytes per row); None = 0-dimensional,
+   len(m) raises TypeError *)
+Definition view_of (b : pybuf) : option (Z * Z) :=
+  if pb_item b >? 1 then Some (len (pb_bytes b), 1)          (* memoryview(bytes(m)) *)
+  else match pb_shape b with
+       | [] => None
+       | d0 :: rest => Some (d0, prod rest)
+       end.
+
+(* Connection._send on a view whose rows are rs bytes wide.  `remaining`
+   starts as len(buf) = number of ROWS, write() returns a number of BYTES n,
+   `remaining -= n`, and `buf = buf[n:]` drops n ROWS (n * rs bytes).  With
+   rs = 1 and remaining = len buf this is send_loop.  When the script is used
+   up the OS takes everything that is offered; if `remaining` is then not 0 the
+   next buffer has no bytes, every later write() returns 0 and nothing changes
+   any more: the call never returns (ESpin).  Trace: bytes offered per write(). *)
+Fixpoint send_loop_sh (rs : Z) (o : list wresp) (remaining : Z) (buf : list Z)
+  : list wresp * list Z * list Z * option err :=
+  match o with
+  | [] => if remaining - len buf =? 0 then ([], buf, [len buf], None)
+          else ([], buf, (if len buf =? 0 then [] else [len buf]), Some ESpin)
+  | WEintr :: o' =>
+      let '(o2, w, t, e) := send_loop_sh rs o' remaining buf in (o2, w, len buf :: t, e)
+  | WErr :: o' => (o', [], [len buf], Some EIo)
+  | WAccept k :: o' =>
+      let n := sys_write k buf in
+      if remaining - n =? 0 then (o', take n buf, [len buf], None)
+      else let '(o2, w, t, e) := send_loop_sh rs o' (remaining - n) (drop (n * rs) buf) in
+           (o2, take n buf ++ w, len buf :: t, e)
+  end.
+
+(* Connection._send_bytes on a view of `rows` rows of rs bytes holding `payload`:
+   n = len(buf) = rows goes into the header and decides the threshold;
+   buf.tobytes() (all the bytes) is concatenated below the threshold *)
+Definition send_raw_sh (o : list wresp) (rows rs : Z) (payload : list Z)
+  : list wresp * list Z * list Z * option err :=
+  if rows >? MAXLEN then (o, [], [], Some EStruct)
+  else
+    let header := be32 rows in
+    if rows >? THRESH then
+      let '(o1, w1, t1, e1) := send_loop o header in
+      match e1 with
+      | Some e => (o1, w1, t1, Some e)
+      | None => let '(o2, w2, t2, e2) := send_loop_sh rs o1 rows payload in
+                (o2, w1 ++ w2, t1 ++ t2, e2)
+      end
+    else send_loop o (header ++ payload).
+
+(* _ConnectionBase.send_bytes on any buffer *)
+Definition send_bytes_sh (c : conn) (o : list wresp) (b : pybuf) (off : Z) (size : option Z)
+  : list wresp * list Z * list Z * option err :=
+  match view_of b with
+  | None => (o, [], [], Some (if closed c then EClosed
+                              else if negb (writable c) then ENotWritable else ENoLen))
+  | Some (rows, rs) =>
+      match send_args c rows off size with
+      | inl e => (o, [], [], Some e)
+      | inr (lo, hi) => send_raw_sh o (hi - lo) rs (slice (lo * rs) (hi * rs) (pb_bytes b))
+      end
+  end.
+
+(* what the caller asked for (documented meaning of offset / size: BYTES of the
+   object): None when the request itself is out of range *)
+Definition wanted (b : pybuf) (off : Z) (size : option Z) : option (list Z) :=
+  let n := len (pb_bytes b) in
+  if (off <? 0) || (n <? off) then None
+  else match size with
+       | None => Some (slice off n (pb_bytes b))
+       | Some sz => if (sz <? 0) || (off + sz >? n) then None
+                    else Some (slice off (off + sz) (pb_bytes b))
+       end.
 
 (* Connection._recv: the loop, entered with remaining > 0.
    result = (unused script, unread stream, `remaining` at each read() call,
@@ -250,11 +341,47 @@ Definition recv_bytes_into (c : conn) (o : list rresp) (stream : list Z)
       end
   end.
 
+(* recv_bytes_into on a buffer of any shape: `len(m)` is the first dimension d0,
+   so bytesize = itemsize * d0 (NOT the size in bytes unless the shape is 1-D),
+   and m[lo:hi] selects ROWS lo..hi of it * rs bytes each (rs = product of the
+   other dimensions).  A 0-dimensional buffer has no len(): TypeError. *)
+Definition readinto_sh (buf : list Z) (it rs off : Z) (msg : list Z) : list Z :=
+  let size := len msg in
+  let lo := off / it in
+  let hi := (off + size) / it in
+  let w := it * rs in
+  let cnt := Z.min size ((hi - lo) * w) in
+  take (lo * w) buf ++ take cnt msg ++ drop (lo * w + cnt) buf.
+
+Definition recv_bytes_into_sh (c : conn) (o : list rresp) (stream : list Z)
+           (buf : list Z) (it : Z) (shape : list Z) (off : Z)
+  : conn * list rresp * list Z * list Z * (err + (Z * list Z)) :=
+  match shape with
+  | [] => (c, o, stream, [], inl (if closed c then EClosed
+                                  else if negb (readable c) then ENotReadable else ENoLen))
+  | d0 :: rest =>
+      let bytesize := it * d0 in
+      match into_args c bytesize off with
+      | Some e => (c, o, stream, [], inl e)
+      | None =>
+          let '(o1, s1, t1, r) := recv_bytes_raw o stream None in
+          match r with
+          | inl e => (c, o1, s1, t1, inl e)
+          | inr None => (c, o1, s1, t1, inl EBadLen)    (* unreachable: no maxsize *)
+          | inr (Some d) =>
+              if bytesize <? off + len d then (c, o1, s1, t1, inl (ETooShort d))
+              else (c, o1, s1, t1, inr (len d, readinto_sh buf it (prod rest) off d))
+          end
+      end
+  end.
+
 (* ------------------------------------------------------------------ *)
 (* whole runs: a sender performs its operations, then the receiver      *)
 
-Inductive sop := SSend (buf : list Z) (off : Z) (size : option Z) | SClose.
-Inductive rop := RRecv (maxlength : option Z) | RInto (buf : list Z) (it off : Z) | RClose.
+Inductive sop := SSend (buf : list Z) (off : Z) (size : option Z) | SClose
+                | SSendSh (b : pybuf) (off : Z) (size : option Z).
+Inductive rop := RRecv (maxlength : option Z) | RInto (buf : list Z) (it off : Z) | RClose
+                | RIntoSh (buf : list Z) (it : Z) (shape : list Z) (off : Z).
 
 (* per-operation observation: error code (0 = returned normally) and flags *)
 Definition flags (c : conn) : bool * bool * bool := (closed c, readable c, writable c).
@@ -269,6 +396,10 @@ Fixpoint run_sender (c : conn) (o : list wresp) (ops : list sop)
       let '(w, t, obs) := run_sender c1 o r in (w, t, (0, flags c1) :: obs)
   | SSend buf off size :: r =>
       let '(o1, w1, t1, e) := send_bytes c o buf off size in
+      let '(w, t, obs) := run_sender c o1 r in
+      (w1 ++ w, t1 ++ t, (code_of e, flags c) :: obs)
+  | SSendSh b off size :: r =>
+      let '(o1, w1, t1, e) := send_bytes_sh c o b off size in
       let '(w, t, obs) := run_sender c o1 r in
       (w1 ++ w, t1 ++ t, (code_of e, flags c) :: obs)
   end.
@@ -296,6 +427,14 @@ Fixpoint run_receiver (c : conn) (o : list rresp) (stream : list Z) (ops : list 
       let '(s, t, obs) := run_receiver c1 o1 s1 r in (s, t1 ++ t, ob :: obs)
   | RInto buf it off :: r =>
       let '(c1, o1, s1, t1, res) := recv_bytes_into c o stream buf it off in
+      let ob := match res with
+                | inr (n, b) => mk_robs 0 [] n b (flags c1)
+                | inl (ETooShort m) => mk_robs 501 m (-1) buf (flags c1)
+                | inl e => mk_robs (err_code e) [] (-1) buf (flags c1)
+                end in
+      let '(s, t, obs) := run_receiver c1 o1 s1 r in (s, t1 ++ t, ob :: obs)
+  | RIntoSh buf it shape off :: r =>
+      let '(c1, o1, s1, t1, res) := recv_bytes_into_sh c o stream buf it shape off in
       let ob := match res with
                 | inr (n, b) => mk_robs 0 [] n b (flags c1)
                 | inl (ETooShort m) => mk_robs 501 m (-1) buf (flags c1)
@@ -342,12 +481,21 @@ Definition blob_ok (b : blob) (l : list Z) : bool :=
   | ODig n s1 s2 => let '(n', a, c) := digest l in (n =? n') && (s1 =? a) && (s2 =? c)
   end.
 
-Inductive csop := CSend (buf : bsrc) (off : Z) (size : option Z) | CSClose.
-Inductive crop := CRecv (maxlength : option Z) | CInto (buf : bsrc) (it off : Z) | CRClose.
+Inductive csop := CSend (buf : bsrc) (off : Z) (size : option Z) | CSClose
+                 | CSendSh (buf : bsrc) (it : Z) (shape : list Z) (off : Z) (size : option Z).
+Inductive crop := CRecv (maxlength : option Z) | CInto (buf : bsrc) (it off : Z) | CRClose
+                 | CIntoSh (buf : bsrc) (it : Z) (shape : list Z) (off : Z).
 Definition sop_of (x : csop) : sop :=
-  match x with CSend b o s => SSend (expand b) o s | CSClose => SClose end.
+  match x with
+  | CSend b o s => SSend (expand b) o s
+  | CSClose => SClose
+  | CSendSh b it sh o s => SSendSh (mkbuf (expand b) it sh) o s
+  end.
 Definition rop_of (x : crop) : rop :=
-  match x with CRecv m => RRecv m | CInto b it o => RInto (expand b) it o | CRClose => RClose end.
+  match x with
+  | CRecv m => RRecv m | CInto b it o => RInto (expand b) it o | CRClose => RClose
+  | CIntoSh b it sh o => RIntoSh (expand b) it sh o
+  end.
 
 From BV Require Import Lib.Cases.
 
@@ -396,11 +544,19 @@ Fixpoint monitor_into (ops : list rop) (obs : list robs) (msgs : list (list Z)) 
               if r_code ob =? 0 then into_delivered buf off m (r_buf ob) && monitor_into r t ms
               else if r_code ob =? 501 then monitor_into r t ms
               else true
+          | RIntoSh buf it shape off =>
+              if r_code ob =? 0 then into_delivered buf off m (r_buf ob) && monitor_into r t ms
+              else if r_code ob =? 501 then monitor_into r t ms
+              else true
           end
       end
   end.
 
-(* messages completely put on the wire, in order (operations that returned normally) *)
+(* the messages the receiver is entitled to, in order: for every send operation
+   that returned normally, the bytes of the object that the caller named (for a
+   1-D byte buffer that is what send_args selects; for any other buffer the
+   documented byte range, `wanted`; a request outside the object that was
+   nevertheless accepted can match nothing: [-1]) *)
 Fixpoint sent_msgs (c : conn) (ops : list sop) (obs : list (Z * (bool * bool * bool)))
   : list (list Z) :=
   match ops, obs with
@@ -411,11 +567,26 @@ Fixpoint sent_msgs (c : conn) (ops : list sop) (obs : list (Z * (bool * bool * b
                         else sent_msgs c r t
       | inl _ => sent_msgs c r t
       end
+  | SSendSh b off size :: r, (code, _) :: t =>
+      if code =? 0 then
+        match wanted b off size with
+        | Some m => m :: sent_msgs c r t
+        | None => [-1] :: sent_msgs c r t
+        end
+      else sent_msgs c r t
   | _, _ => []
   end.
 (* no write was cut short by an I/O error (the wire holds whole messages only) *)
 Definition no_io_error (obs : list (Z * (bool * bool * bool))) : bool :=
   forallb (fun x => negb (fst x =? 106)) obs.
+(* a send_bytes call that never returns *)
+Definition some_spin (obs : list (Z * (bool * bool * bool))) : bool :=
+  existsb (fun x => fst x =? 701) obs.
+(* sender-side monitor: when no write failed, the wire is exactly the framed
+   messages the caller named, one after the other (so every message, and the
+   one after it, can be received intact: C13_roundtrip) *)
+Definition wire_framed (wire : list Z) (msgs : list (list Z)) : bool :=
+  list_eqbZ wire (concat (map encode msgs)).
 
 (* one correspondence case:
    sender flags, write script, sender ops, extra raw bytes appended to the wire,
@@ -440,7 +611,11 @@ Definition irob_cmp (m : robs) (i : irob) : Z :=
 (* 0 agree; 1 only internal detail differs (which raise statement of the same
    class, sizes passed to read()/write()); 2 a property-relevant observable
    differs (bytes, exception class, flags, bytes left unread);
-   3 model and implementation agree but the run violates the delivery monitor *)
+   3 model and implementation agree but the run violates the delivery monitor
+     of recv_bytes_into;
+   4 model and implementation agree but what was put on the wire / delivered is
+     not the sequence of messages the sender named (send-side monitor);
+   5 model and implementation agree that a send_bytes call never returns *)
 Definition check_case (c : case) : Z :=
   let 'Case sr sw wo sops extra cut rr rw ro rops isobs iwire iwtrace irobs_ ileft irtrace := c in
   let sc := mkc false sr sw in
@@ -459,9 +634,14 @@ Definition check_case (c : case) : Z :=
   let worst := Z.max a (Z.max b (Z.max d (Z.max e f))) in
   if negb (worst =? 0) then worst
   else
+    if some_spin sobs then 5
+    else
+    let msgs := sent_msgs sc sops' sobs in
+    if no_io_error sobs && negb (wire_framed wire msgs) then 4
+    else
     let clean := match cut with None => true | Some _ => false end
                  && (len (expand extra) =? 0) && no_io_error sobs in
-    if clean && negb (monitor_into rops' robs_ (sent_msgs sc sops' sobs)) then 3 else 0.
+    if clean && negb (monitor_into rops' robs_ msgs) then 3 else 0.
 
 (* what the model expects for a case, for `./check C13 --replay`: sender
    observations, (length, sums) and first bytes of the wire, write trace, receiver
